@@ -129,12 +129,16 @@ def last_line(e):
     return str(e).split("\n")[-1]
 
 
-def real_parse(text):
+def nested_library():
+    return extract_decl.nested_library()
+
+
+def real_parse(text, lib=None):
     """Outcome line of the real code in the format of drv_decl's `parse`.
     Returns (line, ast or None)."""
     declast, todict = mods()
     try:
-        a = declast.check_decl(text, namespace=library())
+        a = declast.check_decl(text, namespace=lib if lib is not None else library())
     except RuntimeError as e:          # incl. NotImplementedError
         return "reject " + common.enc(last_line(e)), None
     except SystemExit as e:
